@@ -391,9 +391,10 @@ def prop_trusted(prop, tops):
             out.append(f'{top_key(t)}: {n}')
         if getattr(t, 'trusted', False):
             out.append(f'{top_key(t)}: contract trusted (body not verified)')
-    mod = sys.modules.get('contracts.' + next((os.path.basename(f)[:-3] for f in glob.glob(os.path.join(HERE, 'contracts', f'{prop.lower()}_*.py'))), ''), None)
-    if mod is not None:
-        out.extend(getattr(mod, 'ENVIRONMENT', []))
+    for f in sorted(glob.glob(os.path.join(HERE, 'contracts', f'{prop.lower()}_*.py'))):  # every contract file of the property
+        mod = sys.modules.get('contracts.' + os.path.basename(f)[:-3])
+        if mod is not None:
+            out.extend(getattr(mod, 'ENVIRONMENT', []))
     return out
 
 
